@@ -11,6 +11,9 @@ Section PropG.
 Variable pushb : node -> bool.
 Variable markf : state -> node -> list node -> list node -> state * list node.
 Variable propf : nat -> state -> list node -> res state.
+(** the order in which the callers of a node are expanded; only the members matter *)
+Variable pordf : state -> node -> list node -> list node.
+Hypothesis pord_mem : forall s x l y, In y (pordf s x l) <-> In y l.
 Hypothesis mark_spec : forall cs s x work s2 work',
   markf s x cs work = (s2, work') ->
   work' = work ++ filter pushb cs /\
@@ -26,7 +29,7 @@ Hypothesis prop_S : forall f s work,
       if nmem x (s_visited s) then propf f s r
       else
         let s1 := set_visited s (x :: s_visited s) in
-        let '(s2, work') := markf s1 x (callers_of s1 x) r in
+        let '(s2, work') := markf s1 x (pordf s1 x (callers_of s1 x)) r in
         propf f s2 work'
   end.
 
@@ -59,15 +62,19 @@ Proof.
         intros c Hc. destruct (K c Hc) as [K1 K2]. split; [exact K1|]. intro Hn.
         destruct (K2 Hn) as [K3|[<-|K3]]; auto.
     + apply nmem_false in Ev. cbv zeta in H.
-      destruct (markf (set_visited s (x :: s_visited s)) x (callers_of (set_visited s (x :: s_visited s)) x) r)
+      destruct (markf (set_visited s (x :: s_visited s)) x
+                  (pordf (set_visited s (x :: s_visited s)) x (callers_of (set_visited s (x :: s_visited s)) x)) r)
         as [s2 work'] eqn:Em.
       apply mark_spec in Em. destruct Em as (A & B & C & D & E0 & F & G).
       cbn [set_visited s_nodes s_bwd s_ts s_visited s_log] in *.
       assert (Hcal : forall y, callers_of s2 y = callers_of s y) by (intro y; unfold callers_of; rewrite C; reflexivity).
       assert (Hcal0 : callers_of (set_visited s (x :: s_visited s)) x = callers_of s x) by reflexivity.
       rewrite Hcal0 in *.
-      assert (G' : forall a b, sdirty s2 a b <-> sdirty s a b \/ (b = x /\ In a (callers_of s x))) by exact G.
-      clear G. apply IH in H.
+      assert (G' : forall a b, sdirty s2 a b <-> sdirty s a b \/ (b = x /\ In a (callers_of s x))).
+      { intros a b. rewrite G, pord_mem. reflexivity. }
+      clear G.
+      assert (A' : forall y, In y work' <-> In y r \/ (In y (callers_of s x) /\ pushb y = true)).
+      { intro y. rewrite A, in_app_iff, filter_In, pord_mem. reflexivity. } apply IH in H.
       * destruct H as (H1 & H2 & H3 & H4 & H5 & H6 & H7 & H8 & H9 & H10).
         split; [congruence|]. split; [congruence|]. split; [congruence|]. split; [congruence|].
         split; [intros a b K; apply H5; apply G'; auto|]. split; [|split; [|split; [|split; [exact H9|]]]].
@@ -77,21 +84,21 @@ Proof.
         -- intros y Hy. apply H7. rewrite E0. right. exact Hy.
         -- intros y [<-|Hy].
            ++ apply H7. rewrite E0. left. reflexivity.
-           ++ apply H8. rewrite A. apply in_or_app. left. exact Hy.
+           ++ apply H8. apply A'. left. exact Hy.
         -- intros y Hy. destruct (H10 y Hy) as [K|[K|[Kp [z K]]]].
            ++ rewrite E0 in K. destruct K as [<-|K]; [right; left; left; reflexivity|left; exact K].
-           ++ rewrite A in K. apply in_app_or in K. destruct K as [K|K]; [right; left; right; exact K|].
-              apply filter_In in K. right. right. split; [apply K|]. exists x. apply K.
+           ++ apply A' in K. destruct K as [K|K]; [right; left; right; exact K|].
+              right. right. split; [apply K|]. exists x. apply K.
            ++ right. right. split; [exact Kp|]. exists z. rewrite <- Hcal. exact K.
       * intros y Hy. rewrite E0 in Hy. destruct Hy as [<-|Hy].
         -- right. intros c Hc. rewrite Hcal in Hc. split; [apply G'; auto|]. intro Hn.
-           right. rewrite A. apply in_or_app. right. apply filter_In. split; [exact Hc|exact Hn].
+           right. apply A'. right. split; [exact Hc|exact Hn].
         -- destruct (HP y Hy) as [K|K]; [left; exact K|right].
            intros c Hc. rewrite Hcal in Hc. destruct (K c Hc) as [K1 K2]. split; [apply G'; auto|]. intro Hn.
            rewrite E0. destruct (K2 Hn) as [K3|[<-|K3]].
            ++ left. right. exact K3.
            ++ left. left. reflexivity.
-           ++ right. rewrite A. apply in_or_app. left. exact K3.
+           ++ right. apply A'. left. exact K3.
 Qed.
 End PropG.
 
@@ -106,8 +113,10 @@ Qed.
 Lemma push_p_nonfw : forall c, push_p c = true <-> nonfw c.
 Proof. intro c. unfold push_p, nonfw. destruct (is_fw_or_proj (nkind c)); cbn [negb]; split; congruence. Qed.
 
-Definition propagate_spec_p := prop_spec push_p mark_callers propagate mark_callers_spec (fun _ _ => eq_refl) (fun _ _ _ => eq_refl).
-Definition propagate_spec_t := prop_spec push_t mark_callers_t propagate_t mark_callers_t_spec (fun _ _ => eq_refl) (fun _ _ _ => eq_refl).
+Definition propagate_spec_p pord (Hp : forall s x l y, In y (pord s x l) <-> In y l) :=
+  prop_spec push_p mark_callers (propagate_o pord) pord Hp mark_callers_spec (fun _ _ => eq_refl) (fun _ _ _ => eq_refl).
+Definition propagate_spec_t pord (Hp : forall s x l y, In y (pord s x l) <-> In y l) :=
+  prop_spec push_t mark_callers_t (propagate_t_o pord) pord Hp mark_callers_t_spec (fun _ _ => eq_refl) (fun _ _ _ => eq_refl).
 
 Section State.
 Variable p : program.
@@ -183,8 +192,11 @@ Definition UpDirtyP (s : state) (n : node) : Prop :=
   (forall c, In n (old_fwd s c) -> sdirty s c n) /\
   (forall b x a, tpath s b x -> In n (old_fwd s x) -> nonfw x -> thru b -> In b (old_fwd s a) -> sdirty s a b).
 
+Variable pord : state -> node -> list node -> list node.
+Hypothesis Hpord : forall s x l y, In y (pord s x l) <-> In y l.
+
 Lemma MInv_propagate_t : forall X inp fuel s n s',
-  MInv p rk s0 X inp s -> propagate_t fuel s [n] = Ok s' -> ~ sverified s n -> NVabove s n ->
+  MInv p rk s0 X inp s -> propagate_t_o pord fuel s [n] = Ok s' -> ~ sverified s n -> NVabove s n ->
   is_fw_or_proj (nkind n) = true ->
   MInv p rk s0 X inp s' /\
   s_nodes s' = s_nodes s /\ s_bwd s' = s_bwd s /\ s_ts s' = s_ts s /\ s_log s' = s_log s /\ UpDirty s' n.
@@ -194,7 +206,7 @@ Proof.
   assert (HP : PVp push_t E s [n]).
   { intros x Hx. destruct (mi_PV _ _ _ _ _ _ _ HI x Hx) as [[]|[K|[_ K]]]; [left; exact K|right].
     intros c Hc. destruct (K c Hc) as [K1 K2]. split; [exact K1|]. intro Hn. left. apply K2. apply push_t_thru. exact Hn. }
-  destruct (propagate_spec_t E _ _ _ _ H HP) as (N1 & N2 & N3 & N4 & N5 & N6 & N7 & N8 & N9 & N10).
+  destruct (propagate_spec_t pord Hpord E _ _ _ _ H HP) as (N1 & N2 & N3 & N4 & N5 & N6 & N7 & N8 & N9 & N10).
   assert (Hg : forall m, get_info s' m = get_info s m) by (intro m; unfold get_info; rewrite N1; reflexivity).
   assert (Hc : forall m, callers_of s' m = callers_of s m) by (intro m; unfold callers_of; rewrite N2; reflexivity).
   assert (Hni : forall x, In x (s_visited s') -> sverified s x \/ nkind x <> KInput).
@@ -202,7 +214,7 @@ Proof.
     - destruct (mi_PV _ _ _ _ _ _ _ HI x K0) as [[]|[K1|[K1 _]]]; auto.
     - right. intro K. rewrite K in Kn. discriminate.
     - right. intro Ki. apply (mi_bwd _ _ _ _ _ _ _ HI) in K0. rewrite (minput_no_fwd _ _ _ _ _ _ _ _ HI Ki) in K0. destruct K0. }
-  destruct (propagate_t_we _ _ _ _ H) as [Nw Nx].
+  destruct (propagate_t_o_we _ _ _ _ _ H) as [Nw Nx].
   assert (HI' : MInv p rk s0 X inp s').
   { eapply MInv_dirtier; eauto.
     - intros a b K. apply N6 in K. destruct K as [K|K]; [eapply mi_dirty_edge; eauto|].
@@ -231,7 +243,7 @@ Proof.
 Qed.
 
 Lemma MInv_propagate_p : forall X inp fuel s n s',
-  MInv p rk s0 X inp s -> propagate fuel s [n] = Ok s' -> ~ sverified s n -> NVabove s n ->
+  MInv p rk s0 X inp s -> propagate_o pord fuel s [n] = Ok s' -> ~ sverified s n -> NVabove s n ->
   is_fw_or_proj (nkind n) = true ->
   MInvE p rk s0 (eq n) X inp s' /\
   s_nodes s' = s_nodes s /\ s_bwd s' = s_bwd s /\ s_ts s' = s_ts s /\ s_log s' = s_log s /\ UpDirtyP s' n.
@@ -242,10 +254,10 @@ Proof.
   { intros x Hx. destruct (mi_PV _ _ _ _ _ _ _ HI x Hx) as [[]|[K|[_ K]]]; [left; exact K|right].
     intros c Hc. destruct (K c Hc) as [K1 K2]. split; [exact K1|]. intro Hn. left. apply K2.
     apply push_p_nonfw in Hn. unfold thru. intro Kc. unfold nonfw in Hn. rewrite Kc in Hn. discriminate. }
-  destruct (propagate_spec_p E _ _ _ _ H HP) as (N1 & N2 & N3 & N4 & N5 & N6 & N7 & N8 & N9 & N10).
+  destruct (propagate_spec_p pord Hpord E _ _ _ _ H HP) as (N1 & N2 & N3 & N4 & N5 & N6 & N7 & N8 & N9 & N10).
   assert (Hg : forall m, get_info s' m = get_info s m) by (intro m; unfold get_info; rewrite N1; reflexivity).
   assert (Hc : forall m, callers_of s' m = callers_of s m) by (intro m; unfold callers_of; rewrite N2; reflexivity).
-  destruct (propagate_we _ _ _ _ H) as [Nw Nx].
+  destruct (propagate_o_we _ _ _ _ _ H) as [Nw Nx].
   assert (HI' : MInvE p rk s0 (eq n) X inp s').
   { eapply MInv_dirtier; eauto.
     - intros a b K. apply N6 in K. destruct K as [K|K]; [eapply mi_dirty_edge; eauto|].
